@@ -41,7 +41,8 @@ import sys
 from simlib import core
 from simlib.driver import CheckBase, list_removals
 
-RUNTIME = "/repo/src/exp2python/python"
+import os as _os
+RUNTIME = _os.path.join(_os.environ.get("VERIF_REPO", "/repo"), "src/exp2python/python")
 KINDS = ["ARRAY", "LIST", "BAG", "SET"]
 BASES = ["INTEGER", "REAL", "STRING", "ENUM", "AGG"]
 ENUM_NAMES = ["a", "b", "c", "d", "e", "f"]
